@@ -114,6 +114,14 @@ class _StopSearch(KeyboardInterrupt):
     """Raised through Hypothesis to end shrinking when its time budget is used."""
 
 
+def _sample_of(case, limit=20000):
+    """cases kept as samples in the evidence file; a very large case (a history of thousands of requests) is abbreviated"""
+    text = canon(case)
+    if len(text) <= limit:
+        return case
+    return {'abbreviated_case': True, 'sha1': digest(case), 'json_length': len(text), 'head': text[:2000]}
+
+
 class Stats(object):
     def __init__(self):
         self.evaluations = 0
@@ -132,7 +140,7 @@ class Stats(object):
         for l in out.labels:
             self.labels[l] = self.labels.get(l, 0) + 1
         if keep_sample:
-            self.samples.append(case)
+            self.samples.append(_sample_of(case))
 
     def merge(self, other):
         self.evaluations += other['evaluations']
@@ -208,7 +216,7 @@ class Runner(object):
             if f is not None and f in self.known and \
                     self.mod.PID in self.known[f].get('properties', []):
                 self.stats.known_hits[f] = self.stats.known_hits.get(f, 0) + 1
-                self.stats.known_examples.setdefault(f, {'case': case, 'disc': d.to_json()})
+                self.stats.known_examples.setdefault(f, {'case': _sample_of(case), 'disc': d.to_json()})
             else:
                 bad.append(d)
         return bad
@@ -492,7 +500,7 @@ def run(modname, tier, seed, replay=None):
         violations = 1
         # confirm deterministically by direct replay in a fresh runner
         path = write_replay(pid, fail['case'], fail['discs'])
-        stats.samples.append({'violating_case': fail['case']})
+        stats.samples.append({'violating_case': _sample_of(fail['case'], 200000)})
         for d in fail['discs']:
             print('  discrepancy: %s: %s' % (d['kind'], d['detail']))
         print('VIOLATION property=%s replay=%s' % (pid, os.path.relpath(path, OUT)))
